@@ -242,9 +242,14 @@ def run_history(hist, init, plays, play_after=1):
             time.sleep(0.06)
         probe_queries(c, [])
         n = 0
-        if play_after == 0:
+        def spawn_all():
             for q, p in plays:
                 spawn(c, q, p, list(HIST))
+            # a second TempoClock in the same process: its pending routine must not notice what happens to this one
+            for q, p in plays[:1]:
+                spawn(others[0], q, p, list(HIST) + [['the next play is on another clock: TempoClock%r' % (OTHER,)]])
+        if play_after == 0:
+            spawn_all()
         for kind, v, y in hist:
             if rt:
                 time.sleep(0.06)       # run LATE: physical time is well past the logical time of this routine
@@ -287,14 +292,12 @@ def run_history(hist, init, plays, play_after=1):
             n += 1
             probe_queries(c, list(HIST))
             if n == play_after:
-                for q, p in plays:
-                    spawn(c, q, p, list(HIST))
+                spawn_all()
             if y:
                 yield y
                 HIST.append(['yield', y])
         if n < play_after:
-            for q, p in plays:
-                spawn(c, q, p, list(HIST))
+            spawn_all()
         probe_failed_changes(c, list(HIST))
         probe_queries(c, list(HIST) + [['then, each raising: tempo = 0, tempo = -1.0, etempo(0.0), beats_per_bar = 0, beats_per_bar = 0.0']])
 
@@ -316,8 +319,11 @@ def run_history(hist, init, plays, play_after=1):
             check_done()
 
     first_want, first_at = [None], [None]
+    others = []
+    OTHER = (4.0, 1.25) if rt else (2.0, 1.25)
 
     def start(c):
+        others.append(TempoClock(OTHER[0], OTHER[1], c._base_seconds if rt else None))
         first_at[0] = Fr(c.beats)
         first_want[0] = c.next_time_on_grid(q0, p0)
         Routine(first).play(c, Quant(q0, p0))
@@ -331,6 +337,8 @@ def run_history(hist, init, plays, play_after=1):
         start(c)
         finished.wait(8.0)       # not finishing in time is not reported: machine load must not raise an alarm
         c.stop()
+        for x in others:
+            x.stop()
     else:
         def boot(inval):
             start(TempoClock(*init))
